@@ -349,5 +349,9 @@ def run(R):
         R.ok('C16.FLD.1', inst, site(pc, chkc[0]))
     else:
         R.fail('C16.FLD.1', inst, pc.qual, 'def parse_certificate', 'parse_certificate does not check for a Data TLV / parse CertificateV2Value', site(pc, pc.f.node))
+    # a certificate verifies under its issuer's key only if the issuing signer and the verifier agree on scheme and hash: the C02 table
+    from .common import shared_obligations
+    R.ob('C16.SHR.1', 'shared with C02: every key-based signer and its verifier agree on signature type, scheme parameters and hash')
+    shared_obligations(R, 'C16.SHR.1', 'C02', {'C02.SIB.1': None})
     R.assumptions += ['signature verification and time-zone correctness of the formatted instants are not decided',
                       'NDN certificate format v2 field numbers as transcribed']
